@@ -23,5 +23,5 @@ AllEvents == UNION {{Traces[t][i] : i \in 1..Len(Traces[t])} : t \in 1..Len(Trac
 tJobs == {e.job : e \in AllEvents}
 tDirs == UNION {{e.dirs[1], e.dirs[2], e.dirs[3]} : e \in AllEvents}
 tLocsOf == [j \in tJobs |-> UNION {{e.locs[i] : i \in 1..Len(e.locs)} : e \in {x \in AllEvents : x.job = j}}]
-tPinned == [j \in tJobs |-> <<"", "", "">>]
+tPinned == [j \in tJobs |-> LET e == CHOOSE x \in AllEvents : x.job = j IN <<e.pinned[1], e.pinned[2], e.pinned[3]>>]
 =============================================================================
